@@ -138,6 +138,39 @@ impl<'a, X: Item> Drop for StubSource<'a, X> {
     }
 }
 
+/// Records what a user callback of a std adaptor is shown, and panics at the planned call
+/// (fault kind F7: closure panic).
+pub struct Watch {
+    pub order: Vec<Grp>,
+    pub calls: usize,
+    pub panic_at: usize,
+    pub fired: bool,
+}
+impl Watch {
+    pub fn new(panic_at: u32) -> Watch {
+        Watch { order: Vec::new(), calls: 0, panic_at: panic_at as usize, fired: false }
+    }
+    /// Returns the 0-based index of this call.
+    pub fn hit(&mut self, g: Grp) -> usize {
+        if tok::should_abandon() {
+            // a violation was already recorded: do not keep a broken iterator running
+            std::panic::panic_any(Injected);
+        }
+        self.calls += 1;
+        self.order.push(g);
+        if self.order.len() > 80 {
+            tok::raise(V6_LENGTH, "a callback was invoked more than 80 times: the iterator does not end".to_string());
+            std::panic::panic_any(Injected);
+        }
+        if self.panic_at != 0 && self.calls == self.panic_at && !std::thread::panicking() {
+            self.fired = true;
+            tok::note(EV_INJECT, 7000 + self.calls as u64);
+            std::panic::panic_any(Injected);
+        }
+        self.calls - 1
+    }
+}
+
 pub enum Form<K: Kind<X>, X: Item> {
     Arr(K::Arr),
     Tup(K::Tup),
@@ -163,6 +196,8 @@ pub struct VecExec<'s, K: Kind<X>, X: Item> {
     pub bagdrop_since_pull: bool,
     pub after_obs_panic: bool,
     pub after_partial_take: bool,
+    pub after_nth_panic: bool,
+    pub after_adapt_panic: bool,
     pub st: &'s mut Stats,
     _k: PhantomData<K>,
 }
@@ -190,6 +225,8 @@ impl<'s, K: Kind<X>, X: Item> VecExec<'s, K, X> {
             bagdrop_since_pull: false,
             after_obs_panic: false,
             after_partial_take: false,
+            after_nth_panic: false,
+            after_adapt_panic: false,
             st,
             _k: PhantomData,
         }
@@ -287,6 +324,76 @@ impl<'s, K: Kind<X>, X: Item> VecExec<'s, K, X> {
                 }
             }
         }
+    }
+
+    /// After an operation on `it.by_ref()` that was planned to pop `doomed` (listed in pop order,
+    /// from the back if `back`) but was cut short by an injected panic: ask the iterator how many
+    /// elements it still holds and reconcile model, ledger and implementation.
+    ///
+    /// * `gone` = how many of the planned elements the harness *knows* have left the iterator
+    ///   (they were handed to a callback, or destroyed): the iterator must not count them any more;
+    /// * an element that left the iterator must be destroyed or held by the harness; when the
+    ///   unwinding came out of an element destructor (`leak_ok`, rule R-unwind) a popped element that
+    ///   nobody destroyed is abandoned (`MayLeak`) instead of being a leak;
+    /// * an element the iterator still counts must be alive and is put back into the model.
+    /// Returns false when a violation was raised.
+    fn reconcile_interrupted(&mut self, doomed: &[Grp], back: bool, len_before: usize, gone: usize, leak_ok: bool, what: &str) -> bool {
+        let newlen = match &self.form {
+            Form::It(it) => match guard_nopanic("len", 0, 0, || it.len()) {
+                Some(l) => l,
+                None => return false,
+            },
+            _ => return false,
+        };
+        if newlen > len_before || len_before - newlen > doomed.len() {
+            tok::raise(V6_LENGTH, format!("{} interrupted: len() went from {} to {} although at most {} elements were to be consumed", what, len_before, newlen, doomed.len()));
+            return false;
+        }
+        let popped = len_before - newlen;
+        if popped < gone {
+            tok::raise(V6_LENGTH, format!("{} interrupted: {} elements had already left the iterator, but len() fell only from {} to {}", what, gone, len_before, newlen));
+            return false;
+        }
+        for (idx, g) in doomed.iter().enumerate() {
+            if idx < popped {
+                for id in g.iter() {
+                    match tok::state_of(id) {
+                        Some(St::Dropped) => {}
+                        Some(St::Live) if tok::owner_of(id) == OWN_BAG => {}
+                        Some(St::Live) => {
+                            if leak_ok {
+                                tok::set_state(id, St::MayLeak);
+                            } else {
+                                tok::raise(V7_LEAK, format!("{} interrupted: id {} left the iterator and was neither handed over nor dropped", what, id));
+                                return false;
+                            }
+                        }
+                        _ => {}
+                    }
+                }
+            } else {
+                for id in g.iter() {
+                    if tok::state_of(id) != Some(St::Live) {
+                        tok::raise(V6_LENGTH, format!("{} interrupted: the iterator still counts id {} which was already destroyed", what, id));
+                        return false;
+                    }
+                }
+                g.set_owner(OWN_MAIN);
+            }
+        }
+        for g in doomed[popped..].iter().rev() {
+            if back {
+                self.dq.push_back(*g);
+            } else {
+                self.dq.push_front(*g);
+            }
+        }
+        if back {
+            self.back += popped;
+        } else {
+            self.front += popped;
+        }
+        true
     }
 
     fn drop_bag_item(x: X) {
@@ -835,7 +942,7 @@ impl<'s, K: Kind<X>, X: Item> VecExec<'s, K, X> {
                 if op.f > 0 {
                     self.st.fault_cfg[F_OBSERVE_PANIC] += 1;
                 }
-                let kind = op.a % 3;
+                let kind = op.a % 4;
                 let (r, fired) = guard(0, m(OWN_MAIN), plan_of(Cb::Observe, op.f), || match kind {
                     0 => {
                         K::v_observe_debug(v);
@@ -843,8 +950,11 @@ impl<'s, K: Kind<X>, X: Item> VecExec<'s, K, X> {
                     1 => {
                         K::v_observe_hash(v);
                     }
-                    _ => {
+                    2 => {
                         K::v_observe_eq(v, v);
+                    }
+                    _ => {
+                        K::v_observe_display(v);
                     }
                 });
                 if fired {
@@ -857,6 +967,113 @@ impl<'s, K: Kind<X>, X: Item> VecExec<'s, K, X> {
                     Err(t) => self.unexpected("observe on a vector", t),
                 }
                 self.check_form("observe");
+                true
+            }
+            VMap => {
+                let v = match std::mem::replace(&mut self.form, Form::Gone) {
+                    Form::V(v) => v,
+                    other => {
+                        self.form = other;
+                        return false;
+                    }
+                };
+                let mode = op.a % 3;
+                let what = match mode {
+                    0 => "map",
+                    1 => "zip + map",
+                    _ => "map2",
+                };
+                // the second operand (modes 1, 2): fresh elements which the closure destroys
+                let (w, wg) = if mode > 0 {
+                    let (items, grps) = Self::fresh_items(OWN_DOOMED);
+                    self.st.elements_created += (n * X::W) as u64;
+                    (Some(K::v_from_arr(K::arr_from_vec(items))), grps)
+                } else {
+                    (None, Vec::new())
+                };
+                if op.f > 0 {
+                    self.st.fault_cfg[F_CLOSURE_PANIC] += 1;
+                }
+                let panic_at = op.f as usize;
+                let mut calls = 0usize;
+                let mut fired = false;
+                let mut order: Vec<Grp> = Vec::with_capacity(n);
+                let allow = m(OWN_DOOMED) | if op.f > 0 { m(OWN_MAIN) } else { 0 };
+                let (r, _) = {
+                    let calls = &mut calls;
+                    let fired = &mut fired;
+                    let order = &mut order;
+                    guard(allow, 0, None, move || {
+                        let mut hit = |x: &X| {
+                            *calls += 1;
+                            order.push(x.grp());
+                            if panic_at != 0 && *calls == panic_at {
+                                *fired = true;
+                                tok::note(EV_INJECT, 7000 + *calls as u64);
+                                std::panic::panic_any(Injected);
+                            }
+                        };
+                        match mode {
+                            0 => K::v_map(v, |x| {
+                                hit(&x);
+                                x
+                            }),
+                            1 => K::v_zip_map(v, w.unwrap(), |x, y| {
+                                hit(&x);
+                                drop(y);
+                                x
+                            }),
+                            _ => K::v_map2(v, w.unwrap(), |x, y| {
+                                hit(&x);
+                                drop(y);
+                                x
+                            }),
+                        }
+                    })
+                };
+                if fired {
+                    self.st.fault_fired[F_CLOSURE_PANIC] += 1;
+                    self.st.probes[P_CLOSURE_PANIC_FIRED] += 1;
+                }
+                match r {
+                    Ok(v2) => {
+                        // every element was handed to the closure exactly once
+                        let mut seen = order.clone();
+                        seen.sort_by_key(|g| g.first());
+                        let mut want = self.model.clone();
+                        want.sort_by_key(|g| g.first());
+                        if seen != want {
+                            tok::raise(V5_ORDER, format!("{}: the closure was handed {} elements, not each of the {} exactly once", what, order.len(), n));
+                            std::mem::forget(v2);
+                            return true;
+                        }
+                        self.form = Form::V(v2);
+                        self.check_form(what);
+                        self.settle_doomed(&wg, false, what);
+                    }
+                    Err(Thrown::Injected) if fired => {
+                        // ordinary unwinding through a user closure (rule R-unwind): every element is
+                        // destroyed exactly once on the way out, none twice, none left behind
+                        let all: Vec<Grp> = self.model.drain(..).chain(wg.into_iter()).collect();
+                        self.settle_doomed(&all, false, what);
+                    }
+                    Err(t) => self.unexpected(what, t),
+                }
+                true
+            }
+            VFromSlice => {
+                let j = op.a as usize % (n + 3);
+                let src: Vec<u32> = (0..j as u32).map(|i| 1000 + i).collect();
+                if let Some(out) = guard_nopanic("from_slice", 0, 0, || K::from_slice_u32(&src)) {
+                    self.st.probes[P_FROM_SLICE] += 1;
+                    for i in 0..n {
+                        let want = if i < j { src[i] } else { 0 };
+                        if out.get(i).copied() != Some(want) {
+                            tok::raise(V5_ORDER, format!("from_slice of {} elements into {}: position {} holds {:?}, expected {}", j, K::NAME, i, out.get(i), want));
+                            break;
+                        }
+                    }
+                }
                 true
             }
             // ------------------------------------------------------------ iterator history
@@ -886,15 +1103,47 @@ impl<'s, K: Kind<X>, X: Item> VecExec<'s, K, X> {
                 }
                 let kind = op.k;
                 let what = kind.name();
-                let got = guard_nopanic(what, m(OWN_DOOMED), 0, || match kind {
+                let fplan = if matches!(kind, Nth | NthBack) { plan_of(Cb::Drop, op.f) } else { None };
+                if fplan.is_some() {
+                    self.st.fault_cfg[F_DROP_PANIC] += 1;
+                }
+                let (r, fired) = guard(m(OWN_DOOMED), 0, fplan, || match kind {
                     Next => it.next(),
                     NextBack => it.next_back(),
                     Nth => it.nth(k),
                     _ => it.nth_back(k),
                 });
-                let got = match got {
-                    Some(g) => g,
-                    None => return true,
+                if fired {
+                    self.st.fault_fired[F_DROP_PANIC] += 1;
+                    self.st.probes[P_DROP_PANIC_FIRED] += 1;
+                }
+                let got = match r {
+                    Ok(g) => g,
+                    Err(Thrown::Injected) if fired => {
+                        // R-unwind, destructor panic inside nth: undo the model's pops, then let the
+                        // iterator say how far it got
+                        if back {
+                            self.back -= pulled;
+                        } else {
+                            self.front -= pulled;
+                        }
+                        let mut planned = doomed.clone();
+                        if let Some(g) = exp {
+                            planned.push(g);
+                        }
+                        let gone = planned.iter().take_while(|g| g.iter().any(|id| tok::state_of(id) == Some(St::Dropped))).count();
+                        if self.reconcile_interrupted(&planned, back, len, gone, true, what) {
+                            self.after_nth_panic = true;
+                            self.check_len(what);
+                            let (s2, e2) = self.cur_state();
+                            self.st.cov[self.slot].mark(2, s2, e2);
+                        }
+                        return true;
+                    }
+                    Err(t) => {
+                        self.unexpected(what, t);
+                        return true;
+                    }
                 };
                 self.settle_doomed(&doomed, false, what);
                 if tok::has_violation() {
@@ -910,6 +1159,14 @@ impl<'s, K: Kind<X>, X: Item> VecExec<'s, K, X> {
                 if self.after_partial_take {
                     self.st.probes[P_TAKECOUNT_PARTIAL] += 1;
                     self.after_partial_take = false;
+                }
+                if self.after_nth_panic {
+                    self.st.probes[P_NTH_DROP_PANIC] += 1;
+                    self.after_nth_panic = false;
+                }
+                if self.after_adapt_panic {
+                    self.st.probes[P_ADAPT_PANIC_CONTINUES] += 1;
+                    self.after_adapt_panic = false;
                 }
                 self.check_len(what);
                 let (s2, e2) = self.cur_state();
@@ -1043,40 +1300,12 @@ impl<'s, K: Kind<X>, X: Item> VecExec<'s, K, X> {
                         }
                     }
                     Err(Thrown::Injected) if fired => {
-                        // Narrow relaxation: the consumer unwound part-way. Every element is still
-                        // either in the iterator or was yielded (and then destroyed by the consumer).
-                        let newlen = match guard_nopanic("len", 0, 0, || it.len()) {
-                            Some(l) => l,
-                            None => return true,
-                        };
-                        if newlen > len || len - newlen > p {
-                            tok::raise(V6_LENGTH, format!("{} interrupted: len() went from {} to {}", op.k.name(), len, newlen));
+                        // Narrow relaxation (R-unwind, destructor panic): the consumer unwound part-way.
+                        // Every element is still in the iterator, or was yielded and then destroyed by
+                        // the consumer; the one whose destructor panicked part-way (W>1) may be abandoned.
+                        let gone = doomed.iter().take_while(|g| g.iter().any(|id| tok::state_of(id) == Some(St::Dropped))).count();
+                        if !self.reconcile_interrupted(&doomed, back, len, gone, true, op.k.name()) {
                             return true;
-                        }
-                        let popped = len - newlen;
-                        for (idx, g) in doomed.iter().enumerate() {
-                            if idx < popped {
-                                if let Some(id) = self.all_dropped(g.iter()) {
-                                    // yielded to the unwinding consumer but its destructor did not run:
-                                    // only legitimate for the element whose own drop panicked part-way (W>1)
-                                    tok::set_state(id, St::MayLeak);
-                                }
-                            } else {
-                                g.set_owner(OWN_MAIN);
-                            }
-                        }
-                        // put the survivors back, in order
-                        for g in doomed[popped..].iter().rev() {
-                            if back {
-                                self.dq.push_back(*g);
-                            } else {
-                                self.dq.push_front(*g);
-                            }
-                        }
-                        if back {
-                            self.back += popped;
-                        } else {
-                            self.front += popped;
                         }
                         self.after_partial_take = true;
                     }
@@ -1145,6 +1374,44 @@ impl<'s, K: Kind<X>, X: Item> VecExec<'s, K, X> {
                     Form::It(it) => it,
                     _ => return false,
                 };
+                if op.a % 3 == 1 {
+                    // ordering probe: comparing the iterator with itself may only touch live elements
+                    let (r, _) = guard(0, m(OWN_MAIN), None, || crate::probe::try_cmp_iter::<K::It>(it));
+                    match r {
+                        Ok(None) => {}
+                        Ok(Some(_)) => self.st.probes[P_ORD_PROBE_ACTIVE] += 1,
+                        Err(t) => self.unexpected("partial_cmp on the iterator", t),
+                    }
+                    self.check_len("partial_cmp probe");
+                    return true;
+                }
+                if op.a % 3 == 2 {
+                    // slice-view probe: an `AsRef<[T]>` view of the iterator must show exactly the
+                    // remaining elements, in order
+                    let (r, _) = guard(0, 0, None, || crate::probe::try_slice_iter::<K::It>(it));
+                    match r {
+                        Ok(None) => {}
+                        Ok(Some(pairs)) => {
+                            self.st.probes[P_SLICE_PROBE_ACTIVE] += 1;
+                            let want: Vec<u32> = self.dq.iter().map(|g| g.first()).collect();
+                            for (id, val) in &pairs {
+                                if !tok::check_read("as_ref() on the iterator", *id, *val) {
+                                    return true;
+                                }
+                            }
+                            let got: Vec<u32> = pairs.iter().map(|p| p.0).collect();
+                            if got != want {
+                                let stale = got.iter().find(|id| !want.contains(id));
+                                match stale {
+                                    Some(id) => tok::raise(V4_READ_AFTER_YIELD, format!("as_ref() on the iterator exposes id {} which it no longer holds", id)),
+                                    None => tok::raise(V5_ORDER, format!("as_ref() on the iterator shows {:?}, the remaining elements are {:?}", got, want)),
+                                }
+                            }
+                        }
+                        Err(t) => self.unexpected("as_ref on the iterator", t),
+                    }
+                    return true;
+                }
                 let cloned = guard(0, m(OWN_MAIN), None, || crate::probe::try_clone_iter::<K::It>(it));
                 match cloned.0 {
                     Ok(None) => {}
@@ -1236,22 +1503,62 @@ impl<'s, K: Kind<X>, X: Item> VecExec<'s, K, X> {
                 let (s, e) = (self.front, n - self.back);
                 self.st.cov[self.slot].mark_trans(s, e, op.k);
                 let mut out: Vec<X> = Vec::new();
-                if guard_nopanic("for x in it.by_ref()", 0, 0, || {
-                    for x in it.by_ref() {
-                        out.push(x);
-                        if out.len() > n + 2 {
-                            break;
+                let len = self.dq.len();
+                let planned: Vec<Grp> = self.dq.drain(..).collect();
+                if op.f > 0 {
+                    self.st.fault_cfg[F_CLOSURE_PANIC] += 1;
+                    for g in &planned {
+                        g.set_owner(OWN_DOOMED);
+                    }
+                }
+                let mut w = Watch::new(op.f);
+                let (r, _) = {
+                    let (w, out) = (&mut w, &mut out);
+                    guard(if op.f > 0 { m(OWN_DOOMED) } else { 0 }, 0, None, move || {
+                        for x in it.by_ref() {
+                            w.hit(x.grp()); // the loop body: may panic while it owns x
+                            out.push(x);
+                        }
+                    })
+                };
+                match r {
+                    Ok(()) => {
+                        if op.f > 0 {
+                            for g in &planned {
+                                g.set_owner(OWN_MAIN);
+                            }
+                        }
+                        self.front += planned.len();
+                        self.settle_sequence(out, planned, true, "for-loop over the iterator");
+                    }
+                    Err(Thrown::Injected) if w.fired => {
+                        self.st.fault_fired[F_CLOSURE_PANIC] += 1;
+                        self.st.probes[P_CLOSURE_PANIC_FIRED] += 1;
+                        self.st.probes[P_LOOP_BODY_PANIC] += 1;
+                        // the elements of completed iterations belong to the caller now
+                        for (i, x) in out.iter().enumerate() {
+                            let g = x.grp();
+                            if planned.get(i) != Some(&g) {
+                                tok::raise(V5_ORDER, "for-loop: elements were not yielded in order".to_string());
+                                std::mem::forget(out);
+                                return true;
+                            }
+                            g.set_owner(OWN_BAG);
+                        }
+                        self.bag.extend(out);
+                        let gone = w.calls;
+                        if self.reconcile_interrupted(&planned, false, len, gone, false, "for-loop whose body panicked") {
+                            self.after_adapt_panic = true;
                         }
                     }
-                })
-                .is_none()
-                {
-                    std::mem::forget(out);
-                    return true;
+                    Err(Thrown::Injected) => {
+                        std::mem::forget(out);
+                    }
+                    Err(t) => {
+                        std::mem::forget(out);
+                        self.unexpected("for x in it.by_ref()", t);
+                    }
                 }
-                let exp: Vec<Grp> = self.dq.drain(..).collect();
-                self.front += exp.len();
-                self.settle_sequence(out, exp, true, "for-loop over the iterator");
                 self.check_len("exhaust");
                 let (s2, e2) = self.cur_state();
                 self.st.cov[self.slot].mark(2, s2, e2);
@@ -1423,21 +1730,49 @@ impl<'s, K: Kind<X>, X: Item> VecExec<'s, K, X> {
                 for g in &all {
                     g.set_owner(OWN_DOOMED);
                 }
-                if op.k == Last {
-                    if let Some(got) = guard_nopanic("last", m(OWN_DOOMED), 0, move || it.last()) {
-                        self.settle_doomed(&all, false, "last");
-                        if tok::has_violation() {
-                            std::mem::forget(got);
-                            return true;
+                if op.f > 0 {
+                    // if a destructor panics inside last(), the element that would have been
+                    // returned is destroyed during the unwinding
+                    if let Some(g) = &last {
+                        g.set_owner(OWN_DOOMED);
+                    }
+                }
+                if op.f > 0 {
+                    self.st.fault_cfg[F_DROP_PANIC] += 1;
+                }
+                let islast = op.k == Last;
+                let (r, fired) = guard(m(OWN_DOOMED), 0, plan_of(Cb::Drop, op.f), move || if islast { (it.last(), 0usize) } else { (None, it.count()) });
+                if fired {
+                    self.st.fault_fired[F_DROP_PANIC] += 1;
+                    self.st.probes[P_DROP_PANIC_FIRED] += 1;
+                }
+                match r {
+                    Ok((got, c)) => {
+                        if islast {
+                            self.settle_doomed(&all, false, "last");
+                            if tok::has_violation() {
+                                std::mem::forget(got);
+                                return true;
+                            }
+                            self.take_yield(got, last, op.b & 1 == 1, "last");
+                        } else {
+                            if c != len {
+                                tok::raise(V6_LENGTH, format!("count() = {} but {} elements remained", c, len));
+                                return true;
+                            }
+                            self.settle_doomed(&all, false, "count");
                         }
-                        self.take_yield(got, last, op.b & 1 == 1, "last");
                     }
-                } else if let Some(c) = guard_nopanic("count", m(OWN_DOOMED), 0, move || it.count()) {
-                    if c != len {
-                        tok::raise(V6_LENGTH, format!("count() = {} but {} elements remained", c, len));
-                        return true;
+                    Err(Thrown::Injected) if fired => {
+                        // R-unwind, destructor panic: the iterator was consumed by value and is gone;
+                        // what nobody destroyed is abandoned, nothing may be destroyed twice
+                        if let Some(g) = last {
+                            g.set_owner(OWN_DOOMED);
+                            all.push(g);
+                        }
+                        self.settle_doomed(&all, true, op.k.name());
                     }
-                    self.settle_doomed(&all, false, "count");
+                    Err(t) => self.unexpected(op.k.name(), t),
                 }
                 true
             }
@@ -1457,27 +1792,56 @@ impl<'s, K: Kind<X>, X: Item> VecExec<'s, K, X> {
                 if back {
                     exp.reverse();
                 }
-                let out = guard_nopanic(op.k.name(), 0, 0, move || {
-                    let f = |mut acc: Vec<X>, x: X| {
-                        acc.push(x);
-                        if acc.len() > n + 2 {
-                            // an iterator that never ends must not keep the run alive
-                            tok::raise(V6_LENGTH, format!("fold was handed more than {} elements", n));
-                            std::panic::panic_any(Injected);
-                        }
-                        acc
-                    };
-                    if back {
-                        it.rfold(Vec::new(), f)
-                    } else {
-                        it.fold(Vec::new(), f)
+                if op.f > 0 {
+                    self.st.fault_cfg[F_CLOSURE_PANIC] += 1;
+                    for g in &exp {
+                        g.set_owner(OWN_DOOMED);
                     }
-                });
-                if let Some(out) = out {
-                    self.settle_sequence(out, exp, op.b & 1 == 1, op.k.name());
+                }
+                let mut w = Watch::new(op.f);
+                let (r, _) = {
+                    let w = &mut w;
+                    guard(if op.f > 0 { m(OWN_DOOMED) } else { 0 }, 0, None, move || {
+                        let f = |mut acc: Vec<X>, x: X| {
+                            w.hit(x.grp());
+                            acc.push(x);
+                            acc
+                        };
+                        if back {
+                            it.rfold(Vec::new(), f)
+                        } else {
+                            it.fold(Vec::new(), f)
+                        }
+                    })
+                };
+                match r {
+                    Ok(out) => {
+                        if op.f > 0 {
+                            for g in &exp {
+                                g.set_owner(OWN_MAIN);
+                            }
+                        }
+                        self.settle_sequence(out, exp, op.b & 1 == 1, op.k.name());
+                    }
+                    Err(Thrown::Injected) if w.fired => {
+                        self.st.fault_fired[F_CLOSURE_PANIC] += 1;
+                        self.st.probes[P_CLOSURE_PANIC_FIRED] += 1;
+                        self.st.probes[P_FOLD_CLOSURE_PANIC] += 1;
+                        // R-unwind, closure panic: accumulator, the element in flight and the iterator
+                        // itself are destroyed by the unwinding: each element exactly once, none left
+                        if w.order[..] != exp[..w.order.len().min(exp.len())] {
+                            tok::raise(V5_ORDER, format!("{}: the closure was not handed the remaining elements in order", op.k.name()));
+                            return true;
+                        }
+                        self.settle_doomed(&exp, false, op.k.name());
+                    }
+                    Err(Thrown::Injected) => {} // the watch stopped an iterator that does not end; violation already recorded
+                    Err(t) => self.unexpected(op.k.name(), t),
                 }
                 true
             }
+            Adapt => self.adapt(op),
+            Consume => self.consume(op),
             Fresh => {
                 if !matches!(self.form, Form::Gone) {
                     return false;
@@ -1488,6 +1852,317 @@ impl<'s, K: Kind<X>, X: Item> VecExec<'s, K, X> {
             }
             _ => false,
         }
+    }
+
+    /// One std-provided method on `it.by_ref()` (the iterator survives): see `ops::ADAPT_NAMES`.
+    fn adapt(&mut self, op: Op) -> bool {
+        let n = K::N;
+        if !matches!(self.form, Form::It(_)) {
+            return false;
+        }
+        let (s, e) = self.cur_state();
+        self.st.cov[self.slot].mark_trans(s, e, op.k);
+        let len = self.dq.len();
+        let which = op.a % N_ADAPT;
+        let k = (op.b & 0xff) as usize % (len + 2);
+        let keep = (op.b >> 8) & 1 == 1;
+        let back = adapt_back(which);
+        let planned_n = adapt_planned(which, k, len);
+        let what = ADAPT_NAMES[which as usize];
+        self.st.adapt_counts[which as usize] += 1;
+        let mut planned: Vec<Grp> = Vec::with_capacity(planned_n);
+        for _ in 0..planned_n {
+            let g = if back { self.dq.pop_back() } else { self.dq.pop_front() }.unwrap();
+            g.set_owner(OWN_DOOMED);
+            planned.push(g);
+        }
+        let has_cb = !matches!(which, 16 | 20 | 21 | 22);
+        let f = if has_cb { op.f } else { 0 };
+        if f > 0 {
+            self.st.fault_cfg[F_CLOSURE_PANIC] += 1;
+        }
+        let mut w = Watch::new(f);
+        let mut kept: Vec<X> = Vec::new();
+        let mut res_idx: Option<Option<usize>> = None;
+        let mut res_bool: Option<bool> = None;
+        let mut res_count: Option<usize> = None;
+        let (r, _) = {
+            let it = match &mut self.form {
+                Form::It(it) => it,
+                _ => unreachable!(),
+            };
+            let (w, kept, res_idx, res_bool, res_count) = (&mut w, &mut kept, &mut res_idx, &mut res_bool, &mut res_count);
+            guard(m(OWN_DOOMED), 0, None, move || match which {
+                0 => kept.extend(it.by_ref().find(|x| w.hit(x.grp()) == k)),
+                1 => kept.extend(it.by_ref().rfind(|x| w.hit(x.grp()) == k)),
+                2 => *res_idx = Some(it.by_ref().position(|x| w.hit(x.grp()) == k)),
+                3 => *res_idx = Some(it.by_ref().rposition(|x| w.hit(x.grp()) == k)),
+                4 => *res_bool = Some(it.by_ref().any(|x| w.hit(x.grp()) == k)),
+                5 => *res_bool = Some(it.by_ref().all(|x| w.hit(x.grp()) != k)),
+                6 => {
+                    if let Err(x) = it.by_ref().try_fold((), |(), x| if w.hit(x.grp()) == k { Err(x) } else { Ok(()) }) {
+                        kept.push(x);
+                    }
+                }
+                7 => {
+                    if let Err(x) = it.by_ref().try_rfold((), |(), x| if w.hit(x.grp()) == k { Err(x) } else { Ok(()) }) {
+                        kept.push(x);
+                    }
+                }
+                8 => {
+                    let _ = it.by_ref().try_for_each(|x| if w.hit(x.grp()) == k { Err(()) } else { Ok(()) });
+                }
+                9 => it.by_ref().take_while(|x| w.hit(x.grp()) < k).for_each(drop),
+                10 => kept.extend(it.by_ref().skip_while(|x| w.hit(x.grp()) < k).next()),
+                11 => it.by_ref().for_each(|x| {
+                    w.hit(x.grp());
+                }),
+                12 => it.by_ref().rev().for_each(|x| {
+                    w.hit(x.grp());
+                }),
+                13 => it.by_ref().zip(0..k).for_each(|(x, _)| {
+                    w.hit(x.grp());
+                }),
+                14 => {
+                    let (st, t) = adapt_step(k);
+                    it.by_ref().step_by(st).take(t).for_each(|x| {
+                        w.hit(x.grp());
+                    })
+                }
+                15 => {
+                    let mut p = it.by_ref().peekable();
+                    if let Some(x) = p.peek() {
+                        w.hit(x.grp());
+                    }
+                    drop(p);
+                }
+                16 => *kept = it.by_ref().collect::<Vec<X>>(),
+                17 => kept.extend(it.by_ref().max_by_key(|x| w.hit(x.grp()))),
+                18 => kept.extend(it.by_ref().min_by_key(|x| w.hit(x.grp()))),
+                19 => kept.extend(it.by_ref().reduce(|a, b| {
+                    w.hit(b.grp());
+                    drop(a);
+                    b
+                })),
+                20 => kept.extend(it.by_ref().rev().last()),
+                21 => *res_count = Some(it.by_ref().count()),
+                _ => kept.extend(it.by_ref().last()),
+            })
+        };
+        // what the callbacks saw must be the consumed elements, in order
+        let exact = adapt_exact(which);
+        let mut pi = 0usize;
+        let mut last_seen_pos = 0usize;
+        for g in &w.order {
+            while pi < planned.len() && planned[pi] != *g {
+                if exact {
+                    break;
+                }
+                pi += 1;
+            }
+            if pi >= planned.len() || planned[pi] != *g {
+                let foreign = !planned.contains(g);
+                tok::raise(
+                    if foreign && g.iter().any(|id| tok::owner_of(id) == OWN_BAG || tok::state_of(id) != Some(St::Live)) { V4_READ_AFTER_YIELD } else { V5_ORDER },
+                    format!("{}: the callback was shown ids {:?}, which is not the next element the iterator holds", what, &g.ids[..g.n as usize]),
+                );
+                std::mem::forget(kept);
+                return true;
+            }
+            pi += 1;
+            last_seen_pos = pi;
+        }
+        // elements handed back to the caller
+        let mut ki = 0usize;
+        let mut kept_grps: Vec<Grp> = Vec::new();
+        for x in kept.iter() {
+            let g = x.grp();
+            while ki < planned.len() && planned[ki] != g {
+                ki += 1;
+            }
+            if ki >= planned.len() {
+                tok::raise(V5_ORDER, format!("{} returned ids {:?}, not among / not in the order of the elements it was to consume", what, &g.ids[..g.n as usize]));
+                std::mem::forget(kept);
+                return true;
+            }
+            ki += 1;
+            kept_grps.push(g);
+        }
+        for g in &kept_grps {
+            g.set_owner(OWN_BAG);
+        }
+        match r {
+            Ok(()) => {
+                // results
+                let bad = match which {
+                    0 | 1 | 6 | 7 | 10 => (kept_grps.len() == 1) != (k < len) || (k < len && kept_grps[0] != planned[k]),
+                    2 => res_idx != Some(if k < len { Some(k) } else { None }),
+                    3 => res_idx != Some(if k < len { Some(len - 1 - k) } else { None }),
+                    4 => res_bool != Some(k < len),
+                    5 => res_bool != Some(k >= len),
+                    16 => kept_grps[..] != planned[..],
+                    17 | 19 | 22 => kept_grps.len() != (len > 0) as usize || (len > 0 && kept_grps[0] != planned[len - 1]),
+                    18 | 20 => kept_grps.len() != (len > 0) as usize || (len > 0 && kept_grps[0] != planned[if which == 18 { 0 } else { len - 1 }]),
+                    21 => res_count != Some(len),
+                    _ => false,
+                };
+                if bad {
+                    tok::raise(V5_ORDER, format!("{} (k = {}, {} elements remaining) returned a result that does not match the remaining elements in order", what, k, len));
+                    std::mem::forget(kept);
+                    return true;
+                }
+                if exact && w.order.len() != planned_n {
+                    tok::raise(V6_LENGTH, format!("{}: the callback saw {} elements, {} were to be consumed", what, w.order.len(), planned_n));
+                    std::mem::forget(kept);
+                    return true;
+                }
+                let rest: Vec<Grp> = planned.iter().filter(|g| !kept_grps.contains(g)).copied().collect();
+                self.settle_doomed(&rest, false, what);
+                if tok::has_violation() {
+                    std::mem::forget(kept);
+                    return true;
+                }
+                if back {
+                    self.back += planned_n;
+                } else {
+                    self.front += planned_n;
+                }
+            }
+            Err(Thrown::Injected) if w.fired => {
+                self.st.fault_fired[F_CLOSURE_PANIC] += 1;
+                self.st.probes[P_CLOSURE_PANIC_FIRED] += 1;
+                // R-unwind, closure panic: the iterator survives; everything the callbacks were
+                // shown has left it, nothing else may be lost
+                if !self.reconcile_interrupted(&planned, back, len, last_seen_pos, false, what) {
+                    std::mem::forget(kept);
+                    return true;
+                }
+                self.after_adapt_panic = true;
+            }
+            Err(Thrown::Injected) => {
+                std::mem::forget(kept);
+                return true;
+            }
+            Err(t) => {
+                std::mem::forget(kept);
+                self.unexpected(what, t);
+                return true;
+            }
+        }
+        if keep {
+            self.bag.extend(kept);
+        } else {
+            let _ = guard_nopanic("caller drops what the adaptor returned", m(OWN_BAG), 0, move || drop(kept));
+        }
+        self.bagdrop_since_pull = false;
+        self.check_len(what);
+        let (s2, e2) = self.cur_state();
+        self.st.cov[self.slot].mark(2, s2, e2);
+        let _ = n;
+        true
+    }
+
+    /// One std-provided consuming method on the iterator by value: see `ops::CONSUME_NAMES`.
+    fn consume(&mut self, op: Op) -> bool {
+        let it = match std::mem::replace(&mut self.form, Form::Gone) {
+            Form::It(it) => it,
+            other => {
+                self.form = other;
+                return false;
+            }
+        };
+        let (s, e) = self.cur_state();
+        self.st.cov[self.slot].mark_trans(s, e, op.k);
+        self.st.cov[self.slot].mark(1, s, e);
+        let which = op.a % N_CONSUME;
+        let what = CONSUME_NAMES[which as usize];
+        self.st.consume_counts[which as usize] += 1;
+        let mut exp: Vec<Grp> = self.dq.drain(..).collect();
+        if which == 1 {
+            exp.reverse();
+        }
+        let len = exp.len();
+        for g in &exp {
+            g.set_owner(OWN_DOOMED);
+        }
+        let f = if which == 5 { 0 } else { op.f };
+        if f > 0 {
+            self.st.fault_cfg[F_CLOSURE_PANIC] += 1;
+        }
+        let mut w = Watch::new(f);
+        let mut kept: Vec<X> = Vec::new();
+        let (r, _) = {
+            let (w, kept) = (&mut w, &mut kept);
+            guard(m(OWN_DOOMED), 0, None, move || match which {
+                0 => it.for_each(|x| {
+                    w.hit(x.grp());
+                }),
+                1 => it.rev().for_each(|x| {
+                    w.hit(x.grp());
+                }),
+                2 => kept.extend(it.max_by_key(|x| w.hit(x.grp()))),
+                3 => kept.extend(it.min_by_key(|x| w.hit(x.grp()))),
+                4 => kept.extend(it.reduce(|a, b| {
+                    w.hit(b.grp());
+                    drop(a);
+                    b
+                })),
+                _ => *kept = it.collect::<Vec<X>>(),
+            })
+        };
+        let seen_ok = match which {
+            4 => len == 0 || w.order[..] == exp[1..1 + w.order.len().min(len - 1)],
+            5 => true,
+            _ => w.order[..] == exp[..w.order.len().min(len)],
+        };
+        if !seen_ok || w.order.len() > len {
+            tok::raise(V5_ORDER, format!("{}: the callback was not shown the remaining elements in order", what));
+            std::mem::forget(kept);
+            return true;
+        }
+        let kept_grps: Vec<Grp> = kept.iter().map(|x| x.grp()).collect();
+        match r {
+            Ok(()) => {
+                let bad = match which {
+                    0 | 1 => !kept_grps.is_empty() || w.order.len() != len,
+                    2 | 4 => kept_grps.len() != (len > 0) as usize || (len > 0 && kept_grps[0] != exp[len - 1]),
+                    3 => kept_grps.len() != (len > 0) as usize || (len > 0 && kept_grps[0] != exp[0]),
+                    _ => kept_grps[..] != exp[..],
+                };
+                if bad {
+                    tok::raise(V5_ORDER, format!("{} over {} remaining elements returned a result that does not match them in order", what, len));
+                    std::mem::forget(kept);
+                    return true;
+                }
+                for g in &kept_grps {
+                    g.set_owner(OWN_BAG);
+                }
+                let rest: Vec<Grp> = exp.iter().filter(|g| !kept_grps.contains(g)).copied().collect();
+                self.settle_doomed(&rest, false, what);
+                if tok::has_violation() {
+                    std::mem::forget(kept);
+                    return true;
+                }
+                if op.b & 1 == 1 {
+                    self.bag.extend(kept);
+                } else {
+                    let _ = guard_nopanic("caller drops what the adaptor returned", m(OWN_BAG), 0, move || drop(kept));
+                }
+            }
+            Err(Thrown::Injected) if w.fired => {
+                self.st.fault_fired[F_CLOSURE_PANIC] += 1;
+                self.st.probes[P_CLOSURE_PANIC_FIRED] += 1;
+                self.st.probes[P_FOLD_CLOSURE_PANIC] += 1;
+                std::mem::forget(kept); // empty: results are only stored on normal return
+                self.settle_doomed(&exp, false, what);
+            }
+            Err(Thrown::Injected) => std::mem::forget(kept),
+            Err(t) => {
+                std::mem::forget(kept);
+                self.unexpected(what, t);
+            }
+        }
+        true
     }
 
     /// A whole sequence yielded at once (fold / for-loop): must equal the model's order.
